@@ -69,13 +69,93 @@ def doc_sets():
     f = docs.doc_of([S("x", "x", definition="x ", props=[P("x", [5], "int", unit="y")])], author="x", version="42")
     g = docs.doc_of([S("x", "x", props=[P("x ", [6], "int", unit=" y")])], author=" x", version=0.9)
     sets.append([e, f, g])
+    # values that Sections and Properties share through equally named attributes (name, definition, reference) are
+    # carried by exactly one of the two kinds here: a Section named x but no Property named x, a Property named y but
+    # no Section named y, and the other way round for definition / reference (in the sets above both kinds carry them)
+    h = docs.doc_of([S("x", "y", definition="x", reference="y", props=[
+        P("y", [1], "int", unit="x", definition="y", reference="x")])], author="x", version="y")
+    sets.append([h])
+    # values made of characters that mean something to a layer the query text passes through (format strings,
+    # SPARQL, regular expressions): one tiny Document per atom, the atoms rotated through the attributes
+    sets.append(char_docs())
     return sets
 
 
-SPECIAL_SETS = (6,)         # the sets above that come with their own query values
+# Characters that are special to Python format strings ({} and %), to SPARQL (variables, quotes, comments, IRIs),
+# to XML and to regular expressions / glob patterns; s, p, d are the node variables of the generated queries.  All are
+# free of , ( ) : and the double quote, as the statement requires.
+CHAR_ATOMS = ["{", "}", "{}", "{node}", "{0}", "a}b", "s^{-1}", "%s", "%", "%d%%", "$x", "?x", "?s", "'", "x'y", "''",
+              "#", "a#b", "<", ">", "<x>", "&", "&amp;", ".", ".*", "[x]", "^x", "x|y", "x+", "*", "s", "p", "d"]
+# TODO baseline-defect: /repo puts the value unescaped into a SPARQL string literal - a value with a backslash, a line
+# break or a carriage return makes prepareQuery raise (ParseException), an escape sequence written out (backslash + t,
+# backslash + backslash, backslash + u0041) is compared as the character it denotes, and a tabulator is expanded to
+# blanks by the SPARQL parser (no hit).  Reported; the atoms stay in the enumeration and are switched on again by
+# setting SKIP_BASELINE_DEFECT_ATOMS to False once /repo escapes the value.
+BASELINE_DEFECT_ATOMS = ["back\\slash", "\\", "x\\", "a\\tb", "a\\\\b", "a\\u0041b", "a\nb", "a\rb", "a\tb"]
+SKIP_BASELINE_DEFECT_ATOMS = True        # TODO baseline-defect
 
 
-def special_queries(K):
+def char_atoms():
+    return CHAR_ATOMS + ([] if SKIP_BASELINE_DEFECT_ATOMS else BASELINE_DEFECT_ATOMS)
+
+
+def char_docs():
+    S, P = rt.S, rt.P
+    A = char_atoms()
+    at = lambda i: A[i % len(A)]
+    return [docs.doc_of([S(at(i), at(i + 1), definition=at(i + 2), reference=at(i + 3), props=[
+        P(at(i + 1), [i], "int", unit=at(i + 2), definition=at(i + 3), reference=at(i + 4), value_origin=at(i))])],
+        author=at(i), version=at(i + 1)) for i in range(len(A))]
+
+
+def char_queries(K, tier):
+    """Queries for the document set of char_docs(): every atom is asked for, as a hit, in attributes of each kind."""
+    A = char_atoms()
+    at = lambda i: A[i % len(A)]
+    single = {"Doc": ["author", "version"], "Sec": ["name", "type", "definition"], "Prop": ["name", "unit", "value_origin"]}
+    if tier == "thorough":
+        single = {"Doc": ["author", "version"], "Sec": ["name", "type", "definition", "reference"],
+                  "Prop": ["name", "unit", "definition", "reference", "value_origin"]}
+    queries = []
+    for i in range(len(A)):
+        for kind in ("Doc", "Sec", "Prop"):
+            for a in single[kind]:
+                queries.append([(kind, (a, at(i)))])
+        queries.append([(("Doc", "Sec", "Prop")[i % 3], ("id", at(i)))])        # never an id: no hit, and no failure
+        # two pairs of one kind: carried by one object (i, i+1) / by two different objects (i, i+2)
+        queries.append([("Sec", ("name", at(i))), ("Sec", ("type", at(i + 1)))])
+        queries.append([("Sec", ("name", at(i))), ("Sec", ("type", at(i + 2)))])
+        queries.append([("Prop", ("name", at(i + 1))), ("Prop", ("unit", at(i + 2)))])
+        queries.append([("Doc", ("author", at(i))), ("Doc", ("version", at(i + 1)))])
+        if tier == "thorough":
+            queries.append([("Prop", ("name", at(i + 1))), ("Prop", ("unit", at(i + 3)))])
+            queries.append([("Doc", ("author", at(i))), ("Doc", ("version", at(i + 2)))])
+            queries.append([("Sec", ("name", at(i))), ("Sec", ("type", at(i + 1))), ("Sec", ("definition", at(i + 2)))])
+        # several kinds
+        queries.append([("Sec", ("name", at(i))), ("Prop", ("name", at(i + 1)))])
+        queries.append([("Doc", ("author", at(i))), ("Sec", ("name", at(i)))])
+        queries.append([("Doc", ("author", at(i))), ("Sec", ("name", at(i))), ("Prop", ("unit", at(i + 2)))])
+    return queries
+
+
+def char_fuzzy(tier):
+    A = char_atoms()
+    at = lambda i: A[i % len(A)]
+    out = []
+    for i in range(len(A)):
+        out.append(({"Sec": ["name"], "Prop": ["name"]}, [at(i)]))
+        out.append(({"Sec": ["name", "type"]}, [at(i), at(i + 1)]))
+        if tier == "thorough":
+            out.append(({"Doc": ["author"], "Prop": ["unit", "value_origin"]}, [at(i), at(i + 2)]))
+    return out
+
+
+SPECIAL_SETS = (6, 8)       # the sets above that come with their own query values
+
+
+def special_queries(K, si=6, tier="quick"):
+    if si == 8:
+        return char_queries(K, tier)
     values = {"author": ["x", "x ", " x"], "version": ["42", "0.9", "x"], "name": ["x", "x ", " x"], "type": ["x", "x ", " x"],
               "definition": ["x", "x ", " x"], "unit": ["y", "y ", " y"], "dtype": ["int"]}
     attrs = {"Doc": ["author", "version"], "Sec": ["name", "type", "definition"], "Prop": ["name", "unit", "dtype"]}
@@ -174,6 +254,15 @@ IDIRI = re.compile(r'^FILTER\(\?([dsp]) = <https://g-node\.org/odml-rdf#(.*)>\) 
 ROWLABEL = {"Document": "d", "Section": "s", "Property": "p"}
 
 
+ESCAPES = {"t": "\t", "n": "\n", "r": "\r", "b": "\b", "f": "\f", '"': '"', "'": "'", "\\": "\\"}
+
+
+def literal_text(s):
+    """The text a SPARQL string literal written as *s* (between the quotes) denotes."""
+    s = re.sub(r"\\u([0-9A-Fa-f]{4})|\\U([0-9A-Fa-f]{8})", lambda m: chr(int(m.group(1) or m.group(2), 16)), s)
+    return re.sub(r"\\(.)", lambda m: ESCAPES.get(m.group(1), m.group(0)), s)
+
+
 def parse_output(text):
     """-> list of (frozenset of (kind,(attr,value)), set of rows) in output order.  The combination a block
     belongs to is read off the query text the finder prints (plain triple patterns, or a variable
@@ -191,7 +280,7 @@ def parse_output(text):
             if m:
                 kind = rev[m.group(1)]
                 attr = [a for a, p in PRED[kind].items() if p == m.group(2)]
-                pairs.append((kind, (attr[0] if attr else "?" + m.group(2), m.group(3))))
+                pairs.append((kind, (attr[0] if attr else "?" + m.group(2), literal_text(m.group(3)))))
                 continue
             m = BIND.match(ln)
             if m and m.group(2) in set(p for k in PRED.values() for p in k.values()):
@@ -202,9 +291,13 @@ def parse_output(text):
             m = FILT.match(ln)
             if m and m.group(1) in bound:
                 kind, attr = bound[m.group(1)]
-                pairs.append((kind, (attr, m.group(2))))
+                pairs.append((kind, (attr, literal_text(m.group(2)))))
                 continue
-            m = IDF.match(ln) or IDIRI.match(ln)
+            m = IDF.match(ln)
+            if m:
+                pairs.append((rev[m.group(1)], ("id", literal_text(m.group(2)))))
+                continue
+            m = IDIRI.match(ln)
             if m:
                 pairs.append((rev[m.group(1)], ("id", m.group(2))))
         kinds = sorted(set(k for k, _ in pairs), key=["Doc", "Sec", "Prop"].index)
@@ -278,42 +371,78 @@ def gen_cases(tier):
     # two pairs of one kind plus one of another
     queries.append([("Sec", ("name", "x")), ("Sec", ("type", "x")), ("Prop", ("name", "x"))])
     queries.append([("Sec", ("name", "x")), ("Prop", ("name", "x")), ("Prop", ("unit", "x"))])
+    # the same attribute = value asked of two kinds at once (Sections and Properties share name, definition, reference
+    # and id; Documents share id with both): in some document sets both kinds carry the value, in others exactly one
+    # does - in either order - or none.  A third pair that has hits makes combinations without the hit-less pair
+    queries += shared_queries()
     fuzzy = [({"Sec": ["name"]}, ["x"]), ({"Sec": ["name", "type"]}, ["x", "y"]), ({"Prop": ["name", "unit"]}, ["x"]),
              ({"Doc": ["author"]}, ["x", "z"]), ({"Sec": ["name"], "Prop": ["name"]}, ["x"]),
              ({"Sec": ["type"], "Prop": ["unit"]}, ["x", "y"]), ({"Doc": ["author", "version"], "Sec": ["name"]}, ["y"]),
              ({"Prop": ["name", "unit", "definition"]}, ["x", "y"] if tier == "thorough" else ["y"]),
-             ({"Sec": ["name"]}, ["z"])]
+             ({"Sec": ["name"]}, ["z"]),
+             ({"Sec": ["name"], "Prop": ["name"]}, ["y", "z"]), ({"Sec": ["reference"], "Prop": ["reference"]}, ["x", "y"]),
+             ({"Sec": ["name", "definition"], "Prop": ["name", "definition"]}, ["x"]),
+             ({"Doc": ["id"], "Sec": ["id"]}, ["<id:Sec>"]), ({"Doc": ["id"], "Sec": ["id", "name"]}, ["<id:Doc>", "x"]),
+             ({"Sec": ["id"], "Prop": ["id"]}, ["<id:Prop>", "<id:Sec>"])]
     fuzzy_special = [({"Sec": ["name", "type"]}, ["x", "x "]), ({"Prop": ["name", "unit"]}, [" y", "x "]),
                      ({"Doc": ["author", "version"]}, ["42", " x"]), ({"Doc": ["version"], "Sec": ["name"]}, ["0.9", "x"])]
     cases = []
     for si in range(len(sets)):
-        qs = special_queries(K) if si in SPECIAL_SETS else queries
-        for chunk in par.chunks(qs, 12 if tier == "quick" else 40):
+        qs = special_queries(K, si, tier) if si in SPECIAL_SETS else queries
+        for chunk in par.chunks(qs, 24 if tier == "quick" else 48):
             cases.append({"set": si, "queries": chunk, "fuzzy": []})
-        cases.append({"set": si, "queries": [], "fuzzy": fuzzy_special if si in SPECIAL_SETS else fuzzy})
+        fz = fuzzy if si not in SPECIAL_SETS else fuzzy_special if si == 6 else char_fuzzy(tier)
+        for chunk in par.chunks(fz, 16):
+            cases.append({"set": si, "queries": [], "fuzzy": chunk})
     return cases
 
 
+def shared_queries():
+    queries = []
+    for attr in ("name", "definition", "reference"):
+        for v in ("x", "y"):
+            queries.append([("Sec", (attr, v)), ("Prop", (attr, v))])
+            for w in ("x", "y"):
+                queries.append([("Sec", (attr, v)), ("Sec", ("type", w)), ("Prop", (attr, v))])
+                queries.append([("Sec", (attr, v)), ("Prop", (attr, v)), ("Prop", ("unit", w))])
+    for a, b in (("Doc", "Sec"), ("Sec", "Prop")):
+        for owner in (a, b):
+            v = "<id:%s>" % owner
+            queries.append([(a, ("id", v)), (b, ("id", v))])
+            queries.append([(a, ("id", v)), (b, ("id", v)), (b, ("name", "x"))])
+            if a == "Sec":
+                queries.append([(a, ("id", v)), (a, ("name", "x")), (b, ("id", v))])
+    queries.append([("Doc", ("id", "<id:Sec>")), ("Doc", ("author", "x")), ("Sec", ("id", "<id:Sec>"))])
+    queries.append([("Doc", ("id", "<id:Doc>")), ("Doc", ("author", "x")), ("Sec", ("id", "<id:Doc>"))])
+    return queries
+
+
+def first_id(documents, kind):
+    """The id of the first object of a kind (MISS_ID where the set has none)."""
+    if kind == "Doc":
+        return documents[0].id
+    secs = tree.children(documents[0])[0]
+    if not secs:
+        return MISS_ID
+    if kind == "Sec":
+        return secs[0].id
+    ps = tree.children(secs[0])[1]
+    return ps[0].id if ps else MISS_ID
+
+
 def fix_ids(documents, pairs):
-    """'<hit>' / '<miss>' id placeholders -> real ids (the first object of the kind) / an unused id."""
+    """'<hit>' / '<miss>' id placeholders -> real ids (the first object of the kind) / an unused id;
+    '<id:Sec>' -> the id of the first Section whatever kind it is asked of (likewise Doc, Prop)."""
     out = []
     for kind, (a, v) in pairs:
         if a == "id":
             if v == "<hit>":
-                if kind == "Doc":
-                    v = documents[0].id
-                else:
-                    secs = tree.children(documents[0])[0]
-                    if not secs:
-                        v = MISS_ID
-                    elif kind == "Sec":
-                        v = secs[0].id
-                    else:
-                        ps = tree.children(secs[0])[1]
-                        v = ps[0].id if ps else MISS_ID
+                v = first_id(documents, kind)
+            elif v.startswith("<id:"):
+                v = first_id(documents, v[4:-1])
             elif v == "<miss with blank>":
                 v = "no such id"
-            else:
+            elif v == "<miss>":
                 v = MISS_ID
         out.append((kind, (a, v)))
     return out
@@ -412,6 +541,7 @@ def run_case(case):
             judge(pairs, text, "match", "dict-reused-finder")
     for sel, terms in case["fuzzy"]:
         current = {"queries": [], "fuzzy": [[sel, terms]]}
+        terms = [first_id(documents, t[4:-1]) if t.startswith("<id:") and t[4:-1] in KIND_WORD else t for t in terms]
         pairs = [(k, (a, t)) for k in ("Doc", "Sec", "Prop") if k in sel for a in sel[k] for t in terms]
         for style in ("string", "dict"):
             if style == "string" and any(t != t.strip() for t in terms):
